@@ -124,8 +124,9 @@ def build(case, v=None):
     if case.get('int_storage') and case['keep'].all() and np.all(a == np.round(a)):
         # ratings on a short scale are stored in the narrowest type that holds them (uint8), others as int64
         a = a.astype(np.uint8 if a.min() >= 0 and a.max() <= 255 and case['n_rdm'] % 2 else np.int64)
-    return RDMs(a, rdm_descriptors={'uid': list(range(case['n_rdm'])), 'grp': list(case['grp'])},
-                pattern_descriptors={'cond': [f'c{i}' for i in range(case['n_cond'])]})
+    return gen.derived_cycle(RDMs(a, rdm_descriptors={'uid': list(range(case['n_rdm'])), 'grp': list(case['grp'])},
+                                  pattern_descriptors={'cond': [f'c{i}' for i in range(case['n_cond'])]}),
+                             ways=('fresh', 'copy', 'pickle', 'fresh', 'deepcopy'))
 
 
 def run_boot(ctx, method):
